@@ -138,12 +138,39 @@ pub fn owned_to_shape(o: &OwnedDataModelType) -> Shape {
 /// lives; the harness never lets them escape the scope of the arena.
 #[derive(Default)]
 pub struct Arena {
-    dmt: Vec<Box<DataModelType>>,
-    dmt_slices: Vec<Box<[&'static DataModelType]>>,
-    nf: Vec<Box<NamedField>>,
-    nf_slices: Vec<Box<[&'static NamedField]>>,
-    var: Vec<Box<Variant>>,
-    var_slices: Vec<Box<[&'static Variant]>>,
+    // nodes are kept as raw pointers obtained from `Box::into_raw` (moving a `Box` would invalidate the
+    // references handed out under the aliasing model the interpreter checks); `Drop` turns them back into boxes
+    dmt: Vec<*mut DataModelType>,
+    dmt_slices: Vec<*mut [&'static DataModelType]>,
+    nf: Vec<*mut NamedField>,
+    nf_slices: Vec<*mut [&'static NamedField]>,
+    var: Vec<*mut Variant>,
+    var_slices: Vec<*mut [&'static Variant]>,
+}
+
+impl Drop for Arena {
+    fn drop(&mut self) {
+        unsafe {
+            for p in self.var_slices.drain(..) {
+                drop(Box::from_raw(p));
+            }
+            for p in self.var.drain(..) {
+                drop(Box::from_raw(p));
+            }
+            for p in self.nf_slices.drain(..) {
+                drop(Box::from_raw(p));
+            }
+            for p in self.nf.drain(..) {
+                drop(Box::from_raw(p));
+            }
+            for p in self.dmt_slices.drain(..) {
+                drop(Box::from_raw(p));
+            }
+            for p in self.dmt.drain(..) {
+                drop(Box::from_raw(p));
+            }
+        }
+    }
 }
 
 impl Arena {
@@ -151,29 +178,25 @@ impl Arena {
         Arena::default()
     }
     fn put(&mut self, d: DataModelType) -> &'static DataModelType {
-        let b = Box::new(d);
-        let p: *const DataModelType = &*b;
-        self.dmt.push(b);
+        let p = Box::into_raw(Box::new(d));
+        self.dmt.push(p);
         unsafe { &*p }
     }
     fn put_list(&mut self, v: Vec<&'static DataModelType>) -> &'static [&'static DataModelType] {
-        let b: Box<[&'static DataModelType]> = v.into_boxed_slice();
-        let p: *const [&'static DataModelType] = &*b;
-        self.dmt_slices.push(b);
+        let p: *mut [&'static DataModelType] = Box::into_raw(v.into_boxed_slice());
+        self.dmt_slices.push(p);
         unsafe { &*p }
     }
     fn put_fields(&mut self, f: &[(Name, Shape)]) -> &'static [&'static NamedField] {
         let mut v: Vec<&'static NamedField> = Vec::new();
         for (n, s) in f {
             let ty = self.build(s);
-            let b = Box::new(NamedField { name: n, ty });
-            let p: *const NamedField = &*b;
-            self.nf.push(b);
+            let p = Box::into_raw(Box::new(NamedField { name: n, ty }));
+            self.nf.push(p);
             v.push(unsafe { &*p });
         }
-        let b: Box<[&'static NamedField]> = v.into_boxed_slice();
-        let p: *const [&'static NamedField] = &*b;
-        self.nf_slices.push(b);
+        let p: *mut [&'static NamedField] = Box::into_raw(v.into_boxed_slice());
+        self.nf_slices.push(p);
         unsafe { &*p }
     }
     fn list(&mut self, v: &[Shape]) -> &'static [&'static DataModelType] {
@@ -221,14 +244,12 @@ impl Arena {
                         VData::Tuple(t) => Data::Tuple(self.list(t)),
                         VData::Struct(f) => Data::Struct(self.put_fields(f)),
                     };
-                    let b = Box::new(Variant { name: v.name, data });
-                    let p: *const Variant = &*b;
-                    self.var.push(b);
+                    let p = Box::into_raw(Box::new(Variant { name: v.name, data }));
+                    self.var.push(p);
                     out.push(unsafe { &*p });
                 }
-                let b: Box<[&'static Variant]> = out.into_boxed_slice();
-                let p: *const [&'static Variant] = &*b;
-                self.var_slices.push(b);
+                let p: *mut [&'static Variant] = Box::into_raw(out.into_boxed_slice());
+                self.var_slices.push(p);
                 D::Enum { name: n, variants: unsafe { &*p } }
             }
         };
